@@ -315,7 +315,7 @@ package algo
 //@ func debugV2 trusted
 
 //@ func FuzzyMatchV2
-//@ property C02 C05
+//@ property C02 C03 C05
 //@ requires !DEBUG
 //@ cut @"pos := posArray(withPos, M)" phase 4 (back-trace)
 //@ track init int16 int32
